@@ -397,14 +397,19 @@ def reconstruct(context):
                 raise Reconstruction("%s: %s" % (type(e).__name__, e))
             cur["got"] += len(slices)
             if cur["got"] >= st["slices_x"] * st["slices_y"]:
+                dcres = []
                 if using_dc_prediction(st):
                     try:
                         for c in ("Y", "C1", "C2"):
-                            dc_prediction(cur["arrays"][c][0]["LL" if st["dwt_depth_ho"] == 0 else "L"])
+                            band = cur["arrays"][c][0]["LL" if st["dwt_depth_ho"] == 0 else "L"]
+                            # dequantised DC residuals BEFORE prediction: the (13.4) arithmetic is redone in TLA+
+                            flat = [int(v) for row in band for v in row]
+                            dcres.append({"w": len(band[0]) if band else 0, "r": flat if all(abs(v) < (1 << 27) for v in flat) else []})
+                            dc_prediction(band)
                     except TypeError as e:  # a position no slice covered is still None
                         raise Reconstruction("TypeError: %s" % e)
                 a = cur["arrays"]
-                pics.append({"hdr": header_of(st), "qm": quant_of(st), "y": flat_transform(a["Y"]), "c1": flat_transform(a["C1"]), "c2": flat_transform(a["C2"])})
+                pics.append({"hdr": header_of(st), "qm": quant_of(st), "y": flat_transform(a["Y"]), "c1": flat_transform(a["C1"]), "c2": flat_transform(a["C2"]), "dcres": dcres})
                 cur = None
     return units, pics
 
